@@ -292,7 +292,8 @@ func subsetWeightShape(a *Analyzer, fn *ssa.Function, val, sub, cmt *Term) (bool
 			return false, "the set escapes or is used by " + ref.String()
 		}
 		n++
-		if c.Term(mu.Value).Key() != tTrue.Key() {
+		// membership tested by the stored value needs every stored value to be true; the comma-ok form tests presence
+		if g.Op == "lookup" && c.Term(mu.Value).Key() != tTrue.Key() {
 			return false, "a set entry is written with a non-true value at " + a.P.InstrPos(mu)
 		}
 		k := c.Term(mu.Key)
